@@ -1,5 +1,8 @@
 import RedisVerif.Model.Conn
 import RedisVerif.Lemmas.Conn
+import RedisVerif.Lemmas.ConnWrite
+import RedisVerif.Lemmas.ConnSim
+import RedisVerif.Lemmas.ConnJunk
 
 /-
   C04 — pipelining: exactly one reply per command, in order, however the bytes arrive.
@@ -37,41 +40,86 @@ def hasDropped : List Action → Bool
   | .dropped _ :: _ => true
   | _ :: rest => hasDropped rest
 
-/-- `GET k`, `PING` -/
+/-- `GET k`, `PING`, `SET k v` -/
+def cmdSetKV : Cmd := [[83, 69, 84], [107], [118]]
 def cmdGetK : Cmd := [[71, 69, 84], [107]]
 def cmdPing : Cmd := [[80, 73, 78, 71]]
 
 /-- default thresholds (`min_pipeline_buffer` 60, `batch_threshold` 2) with the constant as written -/
 def cfg14 : Config := { minPipeline := 60, batchThreshold := 2, headerLen := 14, readSize := 8192,
-                        maxBuffer := 1000000, checked := true, codec := codec1,
+                        maxBuffer := 1000000, checked := true, nameGuard := false, codec := codec1,
                         env := { depth := 64, mem := 1073741824 } }
+/-- the same after the fix of `check_acl_permission` (branch fixes-conn-s3): `parts.first()` -/
+def cfgG : Config := { cfg14 with nameGuard := true }
 /-- the code before the fix commits: wrapping length arithmetic, the pinned decoder -/
 def cfgPinned : Config := { cfg14 with checked := false, codec := codec1Pinned }
 /-- the same with the constant "fixed" to the real header length -/
-def cfg13 : Config := { cfg14 with headerLen := 13 }
+def cfg13 : Config := { cfg14 with headerLen := 13, nameGuard := true }
+/-- `*1\r\n$0\r\n\r\n`: a command whose name is the empty string; `*1\r\n$2\r\n\r\n\r\n`: CR LF as a name -/
+def cmdEmptyName : Cmd := [[]]
+def cmdCrlfName : Cmd := [[13, 10]]
 
 /-! ## 1. segmentation independence / one reply per command / path irrelevance -/
 
-/-- full statement, for a value `h` of the recognisers' `HEADER_LEN`: every segmentation of every
-    well-formed pipeline, under every batching configuration, executes every command exactly
-    once, in order (on the generic path) -/
-def C04_segmentation_independent (h : Nat) : Prop :=
-  ∀ (cfg : Config), cfg.headerLen = h → cfg.codec = codec1 → 1 ≤ cfg.env.depth →
+/-- full statement, for a value `h` of the recognisers' `HEADER_LEN` and a value `guard` of
+    "`check_acl_permission` tolerates a command name without a non-white-space character": every
+    segmentation of every well-formed pipeline — ANY command names and arguments —, under every
+    batching configuration, executes every command exactly once, in order (on the generic path) -/
+def C04_segmentation_independent (h : Nat) (guard : Bool) : Prop :=
+  ∀ (cfg : Config), cfg.headerLen = h → cfg.nameGuard = guard → cfg.codec = codec1 → 2 ≤ cfg.env.depth →
   ∀ (cmds : List Cmd) (segs : List Bytes), segs.flatten = stream cmds →
-    Small (stream cmds) → (stream cmds).length ≤ cfg.maxBuffer → (∀ c ∈ cmds, CmdOK cfg.env c) →
+    Small (stream cmds) → (stream cmds).length ≤ cfg.maxBuffer →
     run cfg segs = execAll cmds
 
-/-- the code as it is (HEADER_LEN = 14) -/
-theorem segmentation_independent : C04_segmentation_independent 14 :=
-  fun cfg h14 hc hd cmds segs h hs hmax hok => run_wf cfg h14 hc hd cmds segs h hs hmax hok
+/-- the general form: `CmdOK cfg c` = two decoder frames of stack, and the name guard is on OR the
+    name of `c` is not empty / white space only -/
+theorem segmentation_independent_cmdok (cfg : Config) (h14 : cfg.headerLen = 14) (hc : cfg.codec = codec1)
+    (hd : 1 ≤ cfg.env.depth) (cmds : List Cmd) (segs : List Bytes) (h : segs.flatten = stream cmds)
+    (hs : Small (stream cmds)) (hmax : (stream cmds).length ≤ cfg.maxBuffer) (hok : ∀ c ∈ cmds, CmdOK cfg c) :
+    run cfg segs = execAll cmds :=
+  run_wf cfg h14 hc hd cmds segs h hs hmax hok
+
+/-- HEADER_LEN = 14 and the guarded `check_acl_permission` (after fix 700b928 on fixes-conn-s3) -/
+theorem segmentation_independent : C04_segmentation_independent 14 true :=
+  fun cfg h14 hg hc hd cmds segs h hs hmax =>
+    run_wf cfg h14 hc (by omega) cmds segs h hs hmax (fun _ _ => ⟨hd, Or.inl hg⟩)
+
+/-- PARTIAL, the code as it is (`parts[0]`): for pipelines in which no command NAME is empty or white
+    space only (`nameWs`, decidable) -/
+theorem segmentation_independent_partial (cfg : Config) (h14 : cfg.headerLen = 14) (hc : cfg.codec = codec1)
+    (hd : 2 ≤ cfg.env.depth) (cmds : List Cmd) (segs : List Bytes) (h : segs.flatten = stream cmds)
+    (hs : Small (stream cmds)) (hmax : (stream cmds).length ≤ cfg.maxBuffer)
+    (hname : ∀ c ∈ cmds, nameWs c = false) :
+    run cfg segs = execAll cmds :=
+  run_wf cfg h14 hc (by omega) cmds segs h hs hmax (fun c hcm => ⟨hd, Or.inr (hname c hcm)⟩)
+
+/-- COUNTEREXAMPLE, the code as it is: `PING`, then the well-formed frame `*1\r\n$0\r\n\r\n` (a command
+    whose name is the empty string), then `PING`: `check_acl_permission` indexes `parts[0]` of
+    `"".split_whitespace()` and panics — ONE reply, then the task (release: the server) is gone
+    (known finding C04:crash:whitespace-command-name) -/
+theorem empty_name_counterexample : ¬ C04_segmentation_independent 14 false := by
+  intro h
+  have := h cfg14 rfl rfl rfl (by decide) [cmdPing, cmdEmptyName, cmdPing]
+    [stream [cmdPing, cmdEmptyName, cmdPing]] (by simp) (by decide) (by decide)
+  have hc : hasCrash (run cfg14 [stream [cmdPing, cmdEmptyName, cmdPing]]) = true := by decide
+  rw [this] at hc
+  exact absurd hc (by decide)
+
+/-- the same for a name of CR LF, a tab and U+00A0, arriving byte by byte; not inside MULTI (there the
+    unknown command is answered with an error and the transaction is marked) -/
+example : hasCrash (run cfg14 ((stream [[[13, 10, 9, 194, 160], [120]]]).map (fun b => [b]))) = true ∧
+    replyCount (run cfg14 [stream [cmdPing, cmdCrlfName]]) = 1 ∧
+    hasCrash (run cfg14 [stream [[[77, 85, 76, 84, 73]], cmdEmptyName, [[69, 88, 69, 67]]]]) = false ∧
+    hasCrash (run cfgG [stream [cmdPing, cmdEmptyName, cmdPing]]) = false ∧
+    nameWs cmdGetK = false ∧ nameWs [[32, 97]] = false ∧ nameWs [[226, 128, 139]] = false := by decide
 
 /-- with HEADER_LEN = 13 the collectors come alive: six pipelined `GET k` in one segment are
     executed as a batch, but ONE `GET k` in a 60-byte buffer (here: followed by three PINGs) is
     consumed by `collect_get_keys`, found to be fewer than `batch_threshold`, and never answered -/
-theorem header13_counterexample : ¬ C04_segmentation_independent 13 := by
+theorem header13_counterexample : ¬ C04_segmentation_independent 13 true := by
   intro h
-  have := h cfg13 rfl rfl (by decide) [cmdGetK, cmdPing, cmdPing, cmdPing]
-    [stream [cmdGetK, cmdPing, cmdPing, cmdPing]] (by simp) (by decide) (by decide) (by decide)
+  have := h cfg13 rfl rfl rfl (by decide) [cmdGetK, cmdPing, cmdPing, cmdPing]
+    [stream [cmdGetK, cmdPing, cmdPing, cmdPing]] (by simp) (by decide) (by decide)
   have hc : replyCount (run cfg13 [stream [cmdGetK, cmdPing, cmdPing, cmdPing]]) = 3 := by decide
   rw [this] at hc
   exact absurd hc (by decide)
@@ -89,9 +137,9 @@ theorem replies_execAll_length : ∀ (s : ExSt) (cmds : List Cmd), (replies s (e
 /-- exactly one reply per command -/
 theorem one_reply_per_command (cfg : Config) (h14 : cfg.headerLen = 14) (hc : cfg.codec = codec1) (hd : 1 ≤ cfg.env.depth)
     (cmds : List Cmd) (segs : List Bytes) (h : segs.flatten = stream cmds)
-    (hs : Small (stream cmds)) (hmax : (stream cmds).length ≤ cfg.maxBuffer) (hok : ∀ c ∈ cmds, CmdOK cfg.env c) :
+    (hs : Small (stream cmds)) (hmax : (stream cmds).length ≤ cfg.maxBuffer) (hok : ∀ c ∈ cmds, CmdOK cfg c) :
     (replies ExSt.init (run cfg segs)).length = cmds.length := by
-  rw [segmentation_independent cfg h14 hc hd cmds segs h hs hmax hok]
+  rw [segmentation_independent_cmdok cfg h14 hc hd cmds segs h hs hmax hok]
   exact replies_execAll_length _ _
 
 /-- … each equal to the reply the command gets when every command arrives alone, in its own
@@ -101,25 +149,25 @@ theorem replies_as_sent_alone (cfg cfg' : Config) (h14 : cfg.headerLen = 14) (h1
     (hd : 1 ≤ cfg.env.depth) (hd' : 1 ≤ cfg'.env.depth)
     (cmds : List Cmd) (segs : List Bytes) (h : segs.flatten = stream cmds)
     (hs : Small (stream cmds)) (hmax : (stream cmds).length ≤ cfg.maxBuffer) (hmax' : (stream cmds).length ≤ cfg'.maxBuffer)
-    (hok : ∀ c ∈ cmds, CmdOK cfg.env c) (hok' : ∀ c ∈ cmds, CmdOK cfg'.env c) (s : ExSt) :
+    (hok : ∀ c ∈ cmds, CmdOK cfg c) (hok' : ∀ c ∈ cmds, CmdOK cfg' c) (s : ExSt) :
     replies s (run cfg segs) = replies s (run cfg' (cmds.map encCmd)) := by
-  rw [segmentation_independent cfg h14 hc hd cmds segs h hs hmax hok,
-    segmentation_independent cfg' h14' hc' hd' cmds (cmds.map encCmd) rfl hs hmax' hok']
+  rw [segmentation_independent_cmdok cfg h14 hc hd cmds segs h hs hmax hok,
+    segmentation_independent_cmdok cfg' h14' hc' hd' cmds (cmds.map encCmd) rfl hs hmax' hok']
 
 /-- which path carried a command cannot matter: on well-formed input the batch collectors and the
     fast path never carry one (they are dead code for well-formed frames because of HEADER_LEN = 14) -/
 theorem path_irrelevant (cfg : Config) (h14 : cfg.headerLen = 14) (hc : cfg.codec = codec1) (hd : 1 ≤ cfg.env.depth)
     (cmds : List Cmd) (segs : List Bytes) (h : segs.flatten = stream cmds)
-    (hs : Small (stream cmds)) (hmax : (stream cmds).length ≤ cfg.maxBuffer) (hok : ∀ c ∈ cmds, CmdOK cfg.env c) :
+    (hs : Small (stream cmds)) (hmax : (stream cmds).length ≤ cfg.maxBuffer) (hok : ∀ c ∈ cmds, CmdOK cfg c) :
     ∀ a ∈ run cfg segs, ∃ f, a = .exec f .generic := by
-  rw [segmentation_independent cfg h14 hc hd cmds segs h hs hmax hok]
+  rw [segmentation_independent_cmdok cfg h14 hc hd cmds segs h hs hmax hok]
   intro a ha
   simp only [execAll, List.mem_map] at ha
   obtain ⟨c, _, hc⟩ := ha
   exact ⟨_, hc.symm⟩
 
 /-- non-vacuity: a real pipeline satisfies the hypotheses, cut inside a header and inside a payload -/
-example : CmdOK cfg14.env cmdGetK ∧ Small (stream [cmdGetK, cmdPing]) ∧
+example : CmdOK cfg14 cmdGetK ∧ Small (stream [cmdGetK, cmdPing]) ∧
     replyCount (run cfg14 [(stream [cmdGetK, cmdPing]).take 6, ((stream [cmdGetK, cmdPing]).drop 6).take 11,
       (stream [cmdGetK, cmdPing]).drop 17]) = 2 := by decide
 
@@ -140,7 +188,7 @@ def hasOverflow : List Action → Bool
 def C04_no_overflow_below_limit (onR : Config → St → Bytes → St × List Action) : Prop :=
   ∀ (cfg : Config), cfg.headerLen = 14 → cfg.codec = codec1 → 1 ≤ cfg.env.depth → 1 ≤ cfg.readSize →
   ∀ (cmds : List Cmd) (segs : List Bytes), segs.flatten = stream cmds → Small (stream cmds) →
-    (∀ c ∈ cmds, (encCmd c).length + cfg.readSize ≤ cfg.maxBuffer + 1) → (∀ c ∈ cmds, CmdOK cfg.env c) →
+    (∀ c ∈ cmds, (encCmd c).length + cfg.readSize ≤ cfg.maxBuffer + 1) → (∀ c ∈ cmds, CmdOK cfg c) →
     ((segs.flatMap (fun s => splitReads cfg.readSize s.length s)).foldl
       (fun (acc : St × List Action) c => let (s', a) := onR cfg acc.1 c; (s', acc.2 ++ a)) (St.init, [])).2
       = execAll cmds
@@ -161,7 +209,7 @@ example : hasOverflow (run { cfg14 with readSize := 32, maxBuffer := 32 }
 def C04_no_overflow_when_stream_fits (onR : Config → St → Bytes → St × List Action) : Prop :=
   ∀ (cfg : Config), cfg.headerLen = 14 → cfg.codec = codec1 → 1 ≤ cfg.env.depth →
   ∀ (cmds : List Cmd) (segs : List Bytes), segs.flatten = stream cmds → Small (stream cmds) →
-    (stream cmds).length ≤ cfg.maxBuffer → (∀ c ∈ cmds, CmdOK cfg.env c) →
+    (stream cmds).length ≤ cfg.maxBuffer → (∀ c ∈ cmds, CmdOK cfg c) →
     ((segs.flatMap (fun s => splitReads cfg.readSize s.length s)).foldl
       (fun (acc : St × List Action) c => let (s', a) := onR cfg acc.1 c; (s', acc.2 ++ a)) (St.init, [])).2
       = execAll cmds
@@ -193,7 +241,7 @@ example : hasOverflow (run { cfg14 with readSize := 64, maxBuffer := 64 }
     make it swallow a frame, and leave the actions for the pipeline untouched -/
 def C04_malformed_is_error (cfg : Config) : Prop :=
   ∀ (cmds : List Cmd) (junk : Bytes) (segs : List Bytes), segs.flatten = stream cmds ++ junk →
-    Small (stream cmds ++ junk) → (stream cmds ++ junk).length ≤ cfg.maxBuffer → (∀ c ∈ cmds, CmdOK cfg.env c) →
+    Small (stream cmds ++ junk) → (stream cmds ++ junk).length ≤ cfg.maxBuffer → (∀ c ∈ cmds, CmdOK cfg c) →
     hasCrash (run cfg segs) = false ∧ hasDropped (run cfg segs) = false ∧
       (run cfg segs).take cmds.length = execAll cmds
 
@@ -203,13 +251,35 @@ def getLookalike : Bytes := [42, 50, 13, 10, 36, 51, 13, 10, 71, 69, 84, 13, 10,
 def getHugeLen : Bytes := [42, 50, 13, 10, 36, 51, 13, 10, 71, 69, 84, 13, 10, 88, 36,
   49, 56, 52, 52, 54, 55, 52, 52, 48, 55, 51, 55, 48, 57, 53, 53, 49, 54, 49, 53, 13, 10, 97, 98]
 
-/-- PART 1 (no crash) holds for the repaired code, for ALL bytes in ALL segmentations (no
-    well-formedness, no size hypothesis beyond `max_buffer_size < 2^56`): neither the recognisers
-    nor the decoder panic -/
-theorem malformed_no_crash (cfg : Config) (hck : cfg.checked = true) (hc : cfg.codec = codec1)
-    (hd : maxNesting + 1 ≤ cfg.env.depth) (hmax : cfg.maxBuffer < 72057594037927936) (segs : List Bytes) :
-    hasCrash (run cfg segs) = false :=
-  run_no_crash cfg hck hc hd hmax segs
+/-- PART 1, full statement for a value `guard` of the name guard: neither the recognisers, nor the
+    decoder, nor the command step panic — for ALL bytes in ALL segmentations (no well-formedness, no
+    size hypothesis beyond `max_buffer_size < 2^56`) -/
+def C04_malformed_no_crash (guard : Bool) : Prop :=
+  ∀ (cfg : Config), cfg.checked = true → cfg.nameGuard = guard → cfg.codec = codec1 →
+    maxNesting + 1 ≤ cfg.env.depth → cfg.maxBuffer < 72057594037927936 →
+    ∀ (segs : List Bytes), hasCrash (run cfg segs) = false
+
+/-- holds with the guarded `check_acl_permission` (after fix 700b928 on fixes-conn-s3) -/
+theorem malformed_no_crash : C04_malformed_no_crash true :=
+  fun cfg hck hng hc hd hmax segs => run_no_crash cfg hck hng hc hd hmax segs
+
+/-- COUNTEREXAMPLE, the code as it is: 11 bytes `*1\r\n$0\r\n\r\n` -/
+theorem malformed_no_crash_counterexample : ¬ C04_malformed_no_crash false := by
+  intro h
+  have := h cfg14 rfl rfl rfl (by decide) (by decide) [stream [cmdEmptyName]]
+  have hc : hasCrash (run cfg14 [stream [cmdEmptyName]]) = true := by decide
+  rw [this] at hc
+  exact absurd hc (by decide)
+
+/-- PARTIAL, the code as it is: no panic on any segmentation of a well-formed pipeline in which no
+    command name is empty / white space only -/
+theorem no_crash_wellformed_partial (cfg : Config) (h14 : cfg.headerLen = 14) (hc : cfg.codec = codec1)
+    (hd : 2 ≤ cfg.env.depth) (cmds : List Cmd) (segs : List Bytes) (h : segs.flatten = stream cmds)
+    (hs : Small (stream cmds)) (hmax : (stream cmds).length ≤ cfg.maxBuffer)
+    (hname : ∀ c ∈ cmds, nameWs c = false) :
+    hasCrash (run cfg segs) = false := by
+  rw [segmentation_independent_partial cfg h14 hc hd cmds segs h hs hmax hname, ← ConnW.anyCrash_eq]
+  exact ConnW.anyCrash_execAll cmds
 
 /-- PART 3 (earlier replies untouched) holds for all bytes that may follow a well-formed pipeline
     and all segmentations: the commands of the pipeline are executed exactly once, in order, before
@@ -217,13 +287,50 @@ theorem malformed_no_crash (cfg : Config) (hck : cfg.checked = true) (hc : cfg.c
 theorem malformed_keeps_earlier (cfg : Config) (h14 : cfg.headerLen = 14) (hc : cfg.codec = codec1)
     (cmds : List Cmd) (junk : Bytes) (segs : List Bytes) (h : segs.flatten = stream cmds ++ junk)
     (hs : Small (stream cmds ++ junk)) (hmax : (stream cmds ++ junk).length ≤ cfg.maxBuffer)
-    (hok : ∀ c ∈ cmds, CmdOK cfg.env c) :
+    (hok : ∀ c ∈ cmds, CmdOK cfg c) :
     (run cfg segs).take cmds.length = execAll cmds := by
   obtain ⟨tail, ht⟩ := run_junk cfg h14 hc cmds junk segs h hs hmax hok
   rw [ht]
   have : (execAll cmds).length = cmds.length := by simp [execAll]
   rw [← this, List.take_left']
   rfl
+
+theorem replyCount_execAll_append (cmds : List Cmd) (rest : List Action) :
+    replyCount (execAll cmds ++ rest) = cmds.length + replyCount rest := by
+  induction cmds with
+  | nil => simp [execAll]
+  | cons c cs ih =>
+    simp only [execAll, List.map_cons, List.cons_append, replyCount, List.length_cons] at ih ⊢
+    rw [ih]; omega
+
+/-- PART 2 (never silence), PARTIAL: a malformed frame that does NOT begin like an array (its first
+    byte is not `*` — so it is no member and no prefix of the look-alike class, whose members all
+    begin `*2\r\n$3\r\nGET` / `*3\r\n$3\r\nSET`) and that the decoder rejects (`parse1 junk` is a protocol
+    error: decidable) is answered with `-ERR protocol error` RIGHT AFTER the replies to the
+    well-formed commands before it — for every segmentation (the frame may share reads with the
+    commands, be cut anywhere, arrive byte by byte), every configuration.  With
+    `malformed_keeps_earlier` and `malformed_no_crash`: error reply, never silence, a hang or a crash,
+    earlier replies untouched.  (For frames beginning with `*` the statement is refuted by the
+    look-alikes: `malformed_is_error_counterexample`.) -/
+theorem malformed_gets_error_partial (cfg : Config) (h14 : cfg.headerLen = 14) (hc : cfg.codec = codec1)
+    (hd : 1 ≤ cfg.env.depth) (cmds : List Cmd) (junk : Bytes) (segs : List Bytes)
+    (h : segs.flatten = stream cmds ++ junk) (hstar : junk.head? ≠ some 42) (e : Err)
+    (hrej : (parse1 cfg.env junk).out = .error e)
+    (hs : Small (stream cmds ++ junk)) (hmax : (stream cmds ++ junk).length ≤ cfg.maxBuffer)
+    (hok : ∀ c ∈ cmds, CmdOK cfg c) :
+    (∃ tail, run cfg segs = execAll cmds ++ Action.protoErr :: tail) ∧ cmds.length + 1 ≤ replyCount (run cfg segs) := by
+  obtain ⟨tail, ht⟩ := run_junk_error cfg h14 hc hd cmds junk segs h hstar e hrej hs hmax hok
+  refine ⟨⟨tail, ht⟩, ?_⟩
+  rw [ht, replyCount_execAll_append]
+  simp only [replyCount]
+  omega
+
+/-- non-vacuity: `?x\r\n`, `$-2\r\n`, `:x\r\n` satisfy the hypotheses; cut inside the last command and
+    byte by byte through the malformed frame, PING and GET are answered, then the protocol error -/
+example : ([63, 120, 13, 10] : Bytes).head? ≠ some 42 ∧ (parse1 cfg14.env [63, 120, 13, 10]).out.errKind = some .unknownType ∧
+    (parse1 cfg14.env [36, 45, 50, 13, 10]).out.errKind = some .badLen ∧ (parse1 cfg14.env [58, 120, 13, 10]).out.errKind = some .badInt ∧
+    replyCount (run cfg14 ([(stream [cmdPing, cmdGetK]).take 20, (stream [cmdPing, cmdGetK]).drop 20 ++ [36]] ++
+      [[45], [50], [13], [10]])) = 3 := by decide
 
 /-- the frames that crashed the pinned code get a protocol error now, after the reply to PING -/
 example : hasCrash (run cfg14 [stream [cmdPing] ++ getHugeLen.take 20, getHugeLen.drop 20]) = false ∧
@@ -358,13 +465,13 @@ theorem pooled_one_reply_per_command (cfg : Config) (h14 : cfg.headerLen = 14) (
     (i : Nat) (out : List Action') (h : (i, out) ∈ (serve cfg (Pool.init poolSize true) specs evs).outs)
     (cmds : List Cmd) (segs : List Bytes) (hspec : specs[i]? = some ⟨segs, none⟩)
     (hseg : segs.flatten = stream cmds) (hs : Small (stream cmds)) (hmax : (stream cmds).length ≤ cfg.maxBuffer)
-    (hok : ∀ c ∈ cmds, CmdOK cfg.env c) :
+    (hok : ∀ c ∈ cmds, CmdOK cfg c) :
     out = (execAll cmds).map Action'.act := by
   obtain ⟨spec, hs1, ho⟩ := (fresh_connection_state cfg poolSize specs evs).2 (i, out) h
   simp only at hs1 ho
   rw [hspec] at hs1
   cases hs1
-  rw [ho, solo, runConn_eq_run, segmentation_independent cfg h14 hc hd cmds segs hseg hs hmax hok]
+  rw [ho, solo, runConn_eq_run, segmentation_independent_cmdok cfg h14 hc hd cmds segs hseg hs hmax hok]
   congr 1
   unfold execAll
   induction cmds with
@@ -404,5 +511,235 @@ example : ((serve cfg14 (Pool.init 1 false) [⟨[midFrame], none⟩, ⟨[stream 
     (fun o => anyProtoErr o.2)) = [false, true] ∧
   ((serve cfg14 (Pool.init 1 true) [⟨[midFrame], none⟩, ⟨[stream [cmdPing, cmdGetK]], none⟩] (seqEvents 2)).outs.map
     (fun o => anyProtoErr o.2)) = [false, false] := by decide
+
+/-! ## 4. the WRITE side: the bytes on the wire (Model/ConnWrite.lean)
+
+Sections 1–3 are about WHICH frames are executed (`Action`s).  Here the replies are encoded into
+the write buffer (`encode_resp_into` / `encode_error_into`), flushed at the end of every read by
+`write_all` + `flush`, and the peer's socket answers every `poll_write` as it likes: it takes any
+number `≥ 1` of the remaining bytes (partial writes), or returns `Ok(0)`, or fails; `poll_flush`
+may fail; a `read()` may fail.  The executor is ANY function `Exec σ` over ANY state type. -/
+
+open RedisVerif.ConnW
+
+/-- full statement, for a value `h` of `HEADER_LEN`: for every executor, every well-formed pipeline,
+    every segmentation of the READS and every segmentation of the WRITES (a peer that takes any
+    number ≥ 1 of bytes per `poll_write` and never fails), under every configuration, the byte
+    stream the client receives is exactly the concatenation of the encoded replies of the
+    commands, executed once each, in command order -/
+def C04_bytes_written (h : Nat) (guard : Bool) : Prop :=
+  ∀ (σ : Type) (ex : Exec σ) (s0 : σ) (cfg : Config), cfg.headerLen = h → cfg.nameGuard = guard →
+    cfg.codec = codec1 → 2 ≤ cfg.env.depth →
+  ∀ (cmds : List Cmd) (segs : List Bytes) (script : List WEv), segs.flatten = stream cmds →
+    Small (stream cmds) → (stream cmds).length ≤ cfg.maxBuffer → NoFail script = true →
+    (runW cfg ex s0 script segs none).out = replyBytes ex s0 (cmds.map cmdFrame)
+
+/-- the general form (`CmdOK`: name guard on, or no command name empty / white space only) -/
+theorem bytes_written_cmdok (σ : Type) (ex : Exec σ) (s0 : σ) (cfg : Config) (h14 : cfg.headerLen = 14)
+    (hc : cfg.codec = codec1) (hd : 1 ≤ cfg.env.depth) (cmds : List Cmd) (segs : List Bytes) (script : List WEv)
+    (h : segs.flatten = stream cmds) (hs : Small (stream cmds)) (hmax : (stream cmds).length ≤ cfg.maxBuffer)
+    (hok : ∀ c ∈ cmds, CmdOK cfg c) (hnf : NoFail script = true) :
+    (runW cfg ex s0 script segs none).out = replyBytes ex s0 (cmds.map cmdFrame) := by
+  have hrun := segmentation_independent_cmdok cfg h14 hc hd cmds segs h hs hmax hok
+  have hnc : hasCrash (run cfg segs) = false := by
+    rw [hrun, ← anyCrash_eq]; exact anyCrash_execAll cmds
+  rw [runW_eq cfg ex s0 script segs hnf hnc, hrun, encActs_execAll]
+
+theorem bytes_written : C04_bytes_written 14 true :=
+  fun σ ex s0 cfg h14 hg hc hd cmds segs script h hs hmax hnf =>
+    bytes_written_cmdok σ ex s0 cfg h14 hc (by omega) cmds segs script h hs hmax (fun _ _ => ⟨hd, Or.inl hg⟩) hnf
+
+/-- with HEADER_LEN = 13 the byte stream lacks the reply of a consumed-and-dropped GET -/
+theorem bytes_written_header13_counterexample : ¬ C04_bytes_written 13 true := by
+  intro h
+  have := h ExSt refExec ExSt.init cfg13 rfl rfl rfl (by decide) [cmdGetK, cmdPing, cmdPing, cmdPing]
+    [stream [cmdGetK, cmdPing, cmdPing, cmdPing]] [] (by simp) (by decide) (by decide) rfl
+  have hl : (runW cfg13 refExec ExSt.init [] [stream [cmdGetK, cmdPing, cmdPing, cmdPing]] none).out.length = 21 := by
+    decide
+  rw [this] at hl
+  exact absurd hl (by decide)
+
+/-- the code as it is: after `PING` and the empty-named command the peer has the reply to PING only
+    if the two arrive in different reads — in ONE read the panic takes the unflushed `+PONG` with it -/
+theorem bytes_written_empty_name_counterexample : ¬ C04_bytes_written 14 false := by
+  intro h
+  have := h ExSt refExec ExSt.init cfg14 rfl rfl rfl (by decide) [cmdPing, cmdEmptyName]
+    [stream [cmdPing, cmdEmptyName]] [] (by simp) (by decide) (by decide) rfl
+  have hl : (runW cfg14 refExec ExSt.init [] [stream [cmdPing, cmdEmptyName]] none).out.length = 0 := by decide
+  rw [this] at hl
+  exact absurd hl (by decide)
+
+/-- … hence equal to what the client receives when every command arrives alone, in its own
+    segment, under any other configuration, from a peer that takes every write whole -/
+theorem bytes_as_sent_alone (σ : Type) (ex : Exec σ) (s0 : σ) (cfg cfg' : Config)
+    (h14 : cfg.headerLen = 14) (h14' : cfg'.headerLen = 14) (hc : cfg.codec = codec1) (hc' : cfg'.codec = codec1)
+    (hd : 1 ≤ cfg.env.depth) (hd' : 1 ≤ cfg'.env.depth)
+    (cmds : List Cmd) (segs : List Bytes) (script : List WEv) (h : segs.flatten = stream cmds)
+    (hs : Small (stream cmds)) (hmax : (stream cmds).length ≤ cfg.maxBuffer) (hmax' : (stream cmds).length ≤ cfg'.maxBuffer)
+    (hok : ∀ c ∈ cmds, CmdOK cfg c) (hok' : ∀ c ∈ cmds, CmdOK cfg' c) (hnf : NoFail script = true) :
+    (runW cfg ex s0 script segs none).out = (runW cfg' ex s0 [] (cmds.map encCmd) none).out := by
+  rw [bytes_written_cmdok σ ex s0 cfg h14 hc hd cmds segs script h hs hmax hok hnf,
+    bytes_written_cmdok σ ex s0 cfg' h14' hc' hd' cmds (cmds.map encCmd) [] rfl hs hmax' hok' rfl]
+
+/-- a peer that fails, closes or stops at ANY point (a failed `poll_write` after any number of
+    partial writes, `Ok(0)`, a failed flush), a `read()` that fails after any number of reads: the
+    client has received a PREFIX of the correct reply stream — never a reply out of order, never a
+    reply to another command, never bytes that are not replies -/
+theorem written_is_prefix (σ : Type) (ex : Exec σ) (s0 : σ) (cfg : Config) (h14 : cfg.headerLen = 14)
+    (hc : cfg.codec = codec1) (hd : 1 ≤ cfg.env.depth)
+    (cmds : List Cmd) (segs : List Bytes) (script : List WEv) (stopAfter : Option Nat) (h : segs.flatten = stream cmds)
+    (hs : Small (stream cmds)) (hmax : (stream cmds).length ≤ cfg.maxBuffer) (hok : ∀ c ∈ cmds, CmdOK cfg c) :
+    (runW cfg ex s0 script segs stopAfter).out <+: replyBytes ex s0 (cmds.map cmdFrame) := by
+  have hrun := segmentation_independent_cmdok cfg h14 hc hd cmds segs h hs hmax hok
+  have hnc : hasCrash (run cfg segs) = false := by
+    rw [hrun, ← anyCrash_eq]; exact anyCrash_execAll cmds
+  have := runW_prefix cfg ex s0 script segs stopAfter hnc
+  rwa [hrun, encActs_execAll] at this
+
+/-- NOTHING IS WITHHELD WHILE THE CLIENT WAITS.  The client has sent ANY PREFIX of a well-formed
+    pipeline (`rest` is what it has not sent yet: the cut may fall at any byte), in any segmentation,
+    and now waits.  Then exactly the commands `done` that are complete in what it sent have been
+    executed, the bytes it has received are exactly the replies to `done` — all of them, none
+    stranded in the write buffer until more input arrives — and what the handler still holds (`pre`)
+    is a proper prefix of the next frame. -/
+theorem nothing_withheld (σ : Type) (ex : Exec σ) (s0 : σ) (cfg : Config) (h14 : cfg.headerLen = 14)
+    (hc : cfg.codec = codec1) (hd : 1 ≤ cfg.env.depth)
+    (cmds : List Cmd) (segs : List Bytes) (rest : Bytes) (script : List WEv) (h : segs.flatten ++ rest = stream cmds)
+    (hs : Small (stream cmds)) (hmax : (stream cmds).length ≤ cfg.maxBuffer) (hok : ∀ c ∈ cmds, CmdOK cfg c)
+    (hnf : NoFail script = true) :
+    ∃ (done left : List Cmd) (pre : Bytes), cmds = done ++ left ∧ segs.flatten = stream done ++ pre ∧
+      (∀ c cs, left = c :: cs → pre.length < (encCmd c).length) ∧
+      run cfg segs = execAll done ∧
+      (runW cfg ex s0 script segs none).out = replyBytes ex s0 (done.map cmdFrame) := by
+  obtain ⟨done, left, pre, tx', e1, e2, e3, e4⟩ :=
+    reads_wf_prefix cfg h14 hc hd (chunksOf cfg segs) cmds [] rest false []
+      (by simp [chunksOf, flatMap_splitReads_flatten, h]) hs hmax hok
+      (by intro c cs _; have := encCmd_len_pos c; simp; omega)
+  have hrun : run cfg segs = execAll done := by
+    have := congrArg Prod.snd e4
+    simpa [run, feedSegs, St.init, chunksOf] using this
+  have hnc : hasCrash (run cfg segs) = false := by
+    rw [hrun, ← anyCrash_eq]; exact anyCrash_execAll done
+  refine ⟨done, left, pre, e1, ?_, e3, hrun, ?_⟩
+  · have : segs.flatten ++ rest = (stream done ++ pre) ++ rest := by
+      rw [h, e1, stream_append, List.append_assoc, e2]
+    exact List.append_cancel_right this
+  · rw [runW_eq cfg ex s0 script segs hnf hnc, hrun, encActs_execAll]
+
+/-- non-vacuity: `SET k v`, `GET k` and 13 of the 14 bytes of a third command have arrived (in two segments, the
+    peer takes 4 bytes at a time): both replies are on the wire -/
+example : (runW cfg14 refExec ExSt.init [.accept 4, .accept 4, .accept 4, .accept 4]
+    [(stream [cmdSetKV, cmdGetK, cmdPing]).take 30, ((stream [cmdSetKV, cmdGetK, cmdPing]).drop 30).take 30] none).out =
+    [43, 79, 75, 13, 10, 36, 49, 13, 10, 118, 13, 10] ∧ (stream [cmdSetKV, cmdGetK]).length = 47 ∧ (stream [cmdSetKV, cmdGetK, cmdPing]).length = 61 := by decide
+
+/-- REFINEMENT for ARBITRARY input bytes (well-formed or not): what the peer receives is (a prefix
+    of, and with a peer that never refuses exactly) the encoding of the actions of `Conn.run` —
+    every action-level theorem of sections 1–3 is a theorem about the bytes on the wire -/
+theorem written_refines_actions (σ : Type) (ex : Exec σ) (s0 : σ) (cfg : Config) (hck : cfg.checked = true)
+    (hng : cfg.nameGuard = true) (hc : cfg.codec = codec1) (hd : maxNesting + 1 ≤ cfg.env.depth) (hmax : cfg.maxBuffer < 72057594037927936)
+    (segs : List Bytes) (script : List WEv) (stopAfter : Option Nat) :
+    (runW cfg ex s0 script segs stopAfter).out <+: (encActs ex s0 (run cfg segs)).2 ∧
+    (NoFail script = true → (runW cfg ex s0 script segs none).out = (encActs ex s0 (run cfg segs)).2) := by
+  have hnc := run_no_crash cfg hck hng hc hd hmax segs
+  exact ⟨runW_prefix cfg ex s0 script segs stopAfter hnc, fun hnf => runW_eq cfg ex s0 script segs hnf hnc⟩
+
+/-- END TO END (with C15's `decode ∘ encode`): a client that feeds what it receives — cut into ANY
+    fragments — to the buffer loop around either decoder obtains exactly one frame per command, in
+    command order, the i-th being the reply of the i-th command (as written on the wire), with no
+    byte left over.  `ValOK`: the executor's replies are values of the reply type that fit the
+    client's stack and nest at most 32 arrays. -/
+theorem client_decodes_one_reply_per_command (σ : Type) (ex : Exec σ) (s0 : σ) (cfg : Config)
+    (h14 : cfg.headerLen = 14) (hc : cfg.codec = codec1) (hd : 1 ≤ cfg.env.depth)
+    (cmds : List Cmd) (segs : List Bytes) (script : List WEv) (h : segs.flatten = stream cmds)
+    (hs : Small (stream cmds)) (hmax : (stream cmds).length ≤ cfg.maxBuffer) (hok : ∀ c ∈ cmds, CmdOK cfg c)
+    (hnf : NoFail script = true)
+    (c : Codec) (hcc : c = codec1 ∨ c = codec2) (cenv : Env) (hcd : 1 ≤ cenv.depth)
+    (hex : ∀ s f p, ValOK c cenv (ex s f p).2)
+    (chunks : List Bytes) (hch : chunks.flatten = (runW cfg ex s0 script segs none).out)
+    (hsm : Small (runW cfg ex s0 script segs none).out) :
+    feedAll (fun b => (parseG c cenv b).out) FeedSt.init chunks =
+      ⟨(replyVals ex s0 (cmds.map cmdFrame)).map (fun v => Frame.val v.san), [], false⟩ ∧
+    (replyVals ex s0 (cmds.map cmdFrame)).length = cmds.length := by
+  have hb := bytes_written_cmdok σ ex s0 cfg h14 hc hd cmds segs script h hs hmax hok hnf
+  rw [hb, replyBytes_eq] at hch hsm
+  refine ⟨feedAll_encoded c hcc cenv hcd _ (replyVals_ok ex _ hex _ _) chunks hch hsm, ?_⟩
+  rw [replyVals_length, List.length_map]
+
+/-- non-vacuity of the hypotheses: an executor whose every reply is `+OK` satisfies `ValOK` for both
+    decoders; the guarded default configuration satisfies the hypotheses of `written_refines_actions`
+    and `malformed_no_crash` -/
+example : (∀ (s : Unit) (f : Val) (p : Path), ValOK codec2 cfg14.env ((fun (u : Unit) (_ : Val) (_ : Path) => (u, Val.simple [79, 75])) s f p).2) ∧
+    cfgG.checked = true ∧ cfgG.nameGuard = true ∧ cfgG.codec = codec1 ∧ maxNesting + 1 ≤ cfgG.env.depth ∧
+    cfgG.maxBuffer < 72057594037927936 :=
+  ⟨fun _ _ _ => (by decide : ValOK codec2 cfg14.env (Val.simple [79, 75])), rfl, rfl, rfl, by decide, by decide⟩
+
+/-- non-vacuity: `SET k v`, `GET k`, `PING` cut inside a header; the peer takes 1, 7, 2 bytes, then
+    everything; the client gets `+OK\r\n$1\r\nv\r\n+PONG\r\n` and decodes three replies from 3-byte pieces -/
+example : NoFail [.accept 1, .accept 7, .accept 2] = true ∧
+    (runW cfg14 refExec ExSt.init [.accept 1, .accept 7, .accept 2]
+      [(stream [cmdSetKV, cmdGetK, cmdPing]).take 9, (stream [cmdSetKV, cmdGetK, cmdPing]).drop 9] none).out =
+      [43, 79, 75, 13, 10, 36, 49, 13, 10, 118, 13, 10, 43, 80, 79, 78, 71, 13, 10] := by decide
+
+/-- … and a peer that fails after 6 bytes has received the first reply and one byte of the second -/
+example : (runW cfg14 refExec ExSt.init [.accept 6, .fail] [stream [cmdSetKV, cmdGetK, cmdPing]] none).out =
+    [43, 79, 75, 13, 10, 36] ∧
+    (runW cfg14 refExec ExSt.init [.accept 6, .accept 0] [stream [cmdSetKV, cmdGetK, cmdPing]] none).ended = true := by
+  decide
+
+/-! ## 5. the MIRROR the repository's own connection tests use (Model/ConnSim.lean)
+
+`SimulatedConnection::process` (src/simulator/connection.rs) is a second, hand-written implementation
+of the read loop ("This mirrors `OptimizedConnectionHandler::run()`"): the repository's pipelining
+tests run IT, not the production handler.  What does a test through the mirror say about the
+production loop? -/
+
+open RedisVerif.ConnSim
+
+/-- full statement: on every input, in every segmentation, the mirror answers as many frames as the
+    production handler (with the guarded `check_acl_permission`) does -/
+def C04_mirror_faithful (cmdErr : Val → Bool) : Prop :=
+  ∀ (chunks : List Bytes), Small chunks.flatten →
+    (simRun cfgG.env cmdErr chunks).done.length = replyCount (run cfgG chunks)
+
+/-- PARTIAL — and stronger on its domain: on every WELL-FORMED pipeline of commands the command
+    parser accepts, for any two segmentations (the mirror's random partial reads, the network's
+    segments and the handler's read size), under every configuration, the mirror executes exactly the
+    frames the production handler executes, in the same order, each once -/
+theorem mirror_agrees_on_wellformed_partial (cfg : Config) (h14 : cfg.headerLen = 14) (hc : cfg.codec = codec1)
+    (cmdErr : Val → Bool) (cmds : List Cmd) (chunks segs : List Bytes)
+    (hch : chunks.flatten = stream cmds) (hseg : segs.flatten = stream cmds)
+    (hs : Small (stream cmds)) (hmax : (stream cmds).length ≤ cfg.maxBuffer) (hok : ∀ c ∈ cmds, CmdOK cfg c)
+    (hd : 2 ≤ cfg.env.depth) (hce : ∀ c ∈ cmds, cmdErr (cmdFrame c) = false) :
+    (simRun cfg.env cmdErr chunks).done = execFrames (run cfg segs) ∧
+    (simRun cfg.env cmdErr chunks).buf = [] ∧ (simRun cfg.env cmdErr chunks).crashed = false := by
+  rw [simRun_wf cfg.env cmdErr hd cmds chunks hch hs hce,
+    segmentation_independent_cmdok cfg h14 hc (by omega) cmds segs hseg hs hmax hok, execFrames_execAll]
+  exact ⟨rfl, rfl, rfl⟩
+
+/-- `GET` without a key: a well-formed frame that `Command::from_resp_zero_copy` rejects -/
+def isGetNoKey : Val → Bool
+  | .array [.bulk [71, 69, 84]] => true
+  | _ => false
+
+/-- COUNTEREXAMPLE 1: a frame the RESP grammar rejects (`?x\r\n`) — the production handler answers
+    `-ERR protocol error`, the mirror clears its buffer and answers NOTHING -/
+theorem mirror_silent_on_protocol_error_counterexample : ¬ C04_mirror_faithful (fun _ => false) := by
+  intro h
+  have := h [[63, 120, 13, 10]] (by decide)
+  exact absurd this (by decide)
+
+/-- COUNTEREXAMPLE 2: `GET` (no key), then `PING`, in one read — the production handler answers both
+    (an error, then PONG); the mirror `break`s at the rejected command without a reply and leaves
+    PING unexecuted in its buffer until more bytes arrive -/
+theorem mirror_stalls_after_rejected_command_counterexample : ¬ C04_mirror_faithful isGetNoKey := by
+  intro h
+  have := h [stream [[[71, 69, 84]], cmdPing]] (by decide)
+  exact absurd this (by decide)
+
+example : replyCount (run cfgG [stream [[[71, 69, 84]], cmdPing]]) = 2 ∧
+    (simRun cfgG.env isGetNoKey [stream [[[71, 69, 84]], cmdPing]]).done.length = 0 ∧
+    (simRun cfgG.env isGetNoKey [stream [[[71, 69, 84]], cmdPing]]).buf = stream [cmdPing] ∧
+    (simRun cfgG.env isGetNoKey [(stream [cmdGetK, cmdPing]).take 7, (stream [cmdGetK, cmdPing]).drop 7]).done.length = 2 := by
+  decide
 
 end RedisVerif.C04
